@@ -159,6 +159,12 @@ def explore(run, tier):
         cases.append({'k': 'oneshot', 'n': n})
     for lens in ([65536], [70000], [131073], [1012 * 1100 + 7], [500, 1012 * 1050], [30000, 40000, 1], [1012 * 64, 5]):
         cases.append({'k': 'stream', 'lens': lens, 'fin': 'f'})
+    # single writes that span five to twelve further blocks and end on / next to a block edge, from several residues
+    for k in range(5, 13):
+        for r in (0, 1, 100, 912, 1011):
+            for d in (-1, 0, 1):
+                n = (1012 - r) + 1012 * k + d
+                cases.append({'k': 'stream', 'lens': ([r] if r else []) + [n, 3], 'fin': 'fsc'[(k + r + d) % 3]})
     # unblocked data that LOOKS blocked (0x40 0x40 where trailers would be): it must be blocked like any other data
     for h in ['40' * 1014, '40' * 2028, '40' * 3000, '11' * 1012 + '4040', ('11' * 1012 + '4040') * 2,
               ('11' * 1012 + '4040') * 2 + '22' * 50, ('11' * 1012 + '4040') * 3, '11' * 1012 + '4040' + '22' * 1012 + '4041']:
